@@ -403,8 +403,11 @@ class Trig:
 
     def _cached(self, kind, *args):
         # keyed on the normalised argument, so arccos(-(p.(-q))) and arccos(p.q) are the same atom
-        key = (kind,) + tuple(z3.simplify(a, som=True).get_id() for a in args)
+        norm = [z3.simplify(a, som=True) for a in args]
+        key = (kind,) + tuple(a.get_id() for a in norm)
         hit = E.labels.get(key)
+        if hit is None:
+            A.keep.extend(norm)       # the normalised ASTs must stay alive: their ids are the cache key
         return key, (hit[1] if hit else None)
 
     def arctan2(self, Y, X):
